@@ -46,6 +46,14 @@ func (e4bEngine) Gen(prop string, seed int64, tier string) *Plan {
 			p.Steps = append(p.Steps, Step{K: "call", A: t, B: kind, C: r.IntN(8), D: 1 + r.IntN(9)})
 		}
 	}
+	// an index that is created while other calls write, and stays (own stream of choices)
+	if rk := newRng(seed, 161); p.Cfg["mode"] == 0 && chance(rk, 35) {
+		t := rk.IntN(p.Cfg["tasks"])
+		at := rk.IntN(len(p.Steps) + 1)
+		steps := append([]Step{}, p.Steps[:at]...)
+		steps = append(steps, Step{K: "call", A: t, B: 7})
+		p.Steps = append(steps, p.Steps[at:]...)
+	}
 	return p
 }
 
@@ -326,6 +334,33 @@ func runC16(p *Plan, res *Result) {
 		clock += 2
 		history = append(history, porcupine.Operation{ClientId: k + 1, Input: e4bInput{Kind: "read", Doc: id}, Call: clock - 1, Output: e4bOutput{OK: true, Out: out}, Return: clock})
 	}
+	// an index whose creation reported success holds every document that the calls that reported success left
+	for t := range ops {
+		for _, op := range ops[t] {
+			if op.Kind != "index-create" || !op.OK {
+				continue
+			}
+			di, ei := n.GQL(`query { User(filter: {age: {_ge: 0}}) { _docID age } }`)
+			dp, ep := n.GQL(`query { User { _docID age } }`)
+			if len(ei) > 0 || len(ep) > 0 {
+				res.violate("C16", "index-incomplete", "index-incomplete/query-failed", 0, "after an index was created concurrently: %v %v", ei, ep)
+				return
+			}
+			var want []map[string]any
+			for _, row := range rows(dp, "User") {
+				if row["age"] != nil {
+					want = append(want, row)
+				}
+			}
+			a, b := canon(sortRows(rows(di, "User"), "_docID")), canon(sortRows(want, "_docID"))
+			if a != b {
+				res.violate("C16", "index-incomplete", "index-incomplete/concurrent-writes", 0,
+					"an index on age was created by task %d while other calls were writing; both reported success, but a request served from the index returns %s and the collection holds %s", t, short(a), short(b))
+				return
+			}
+			res.Stats["kept_indexes_checked"]++
+		}
+	}
 	nconf, nok := 0, 0
 	var shape []string
 	for t := range ops {
@@ -453,6 +488,20 @@ func e4bCall(n *SimNode, shared client.Txn, sched *scheduler, docs []string, col
 		if err == nil {
 			err = col.DropIndex(n.reqCtx(), name)
 		}
+		if err != nil {
+			op.Err = err.Error()
+			op.Conf = strings.Contains(op.Err, "conflict")
+			return
+		}
+		op.OK = true
+	case 7: // index created and kept
+		op.Kind = "index-create"
+		col, err := n.DB.GetCollectionByName(n.reqCtx(), "User")
+		if err != nil {
+			op.Err = err.Error()
+			return
+		}
+		_, err = col.CreateIndex(n.reqCtx(), client.IndexCreateRequest{Name: fmt.Sprintf("ix_keep_t%d", task), Fields: []client.IndexedFieldDescription{{Name: "age"}}})
 		if err != nil {
 			op.Err = err.Error()
 			op.Conf = strings.Contains(op.Err, "conflict")
